@@ -54,7 +54,7 @@ func TestRaceAudit(t *testing.T) {
 	var cases []ra.Case
 	for _, c := range ctxs {
 		c := c
-		cases = append(cases, ra.Case{Key: c.String(), PerG: true, Fn: func(g int) string {
+		cases = append(cases, ra.Case{Key: "signatures|" + c.String(), PerG: true, Fn: func(g int) string {
 			w := newWorld(g)
 			env := NewEraEnv(c.era)
 			sr := findSigRules(env)
